@@ -4,6 +4,7 @@ package main
 
 import (
 	"fmt"
+	"os"
 	"go/types"
 	"strings"
 
@@ -31,7 +32,10 @@ func (p *Prog) verifyFunction(f *ssa.Function, c *Contract) (res *FnResult) {
 			case specErr:
 				res.Unsupported = "spec error: " + e.msg
 			default:
-				panic(r)
+				if os.Getenv("GOVC_PANIC") != "" {
+					panic(r)
+				}
+				res.Unsupported = fmt.Sprintf("internal error in the verifier: %v", r)
 			}
 		}
 	}()
